@@ -69,10 +69,13 @@ def gen_tissue(rng):
     if rng.random() < 0.6:
         ids = [rng.randrange(3, 40) + 7 * i * 6 for i in range(len(cells))]
         rng.shuffle(ids)
-    return dict(kind=kind, place=place, classes=classes, cells=cells, lmin=lmin, cut_adh=cut_adh, cut_rep=cut_rep, ids=ids, level=lvl)
+    # some tissues go through a few edge merges first: their cells then hold free node and face slots (a face's position in its
+    # cell is no longer its rank among the used faces)
+    pm = rng.choice([1, 2, 4]) if (kind in ("row", "cluster", "overlap") and rng.random() < 0.4) else 0
+    return dict(kind=kind, place=place, classes=classes, cells=cells, lmin=lmin, cut_adh=cut_adh, cut_rep=cut_rep, ids=ids, level=lvl, pre_merges=pm)
 
 
-def gen_lattice_pair(rng):
+def gen_lattice_pair(rng, tie_two=False):
     """two or three facing epithelial cubes with dyadic coordinates: node-to-vertex distances tie bit for bit (the closest-vertex
     choice, the coupling decision and the closest-point regions all sit on their boundaries)"""
     nb = rng.choice([2, 2, 3])
@@ -82,12 +85,12 @@ def gen_lattice_pair(rng):
     for i in range(nb):
         n, f = tissue.cube()
         # the second cube is optionally shifted by half an edge: its nodes then face edge midpoints (ties between two vertices)
-        sh = rng.choice([0.0, 0.5, 0.25]) if i % 2 else 0.0
+        sh = (0.5 if tie_two else rng.choice([0.0, 0.5, 0.25])) if i % 2 else 0.0
         n = [[(p[0] + 1) * s_ + i * (1.0 + gap), (p[1] + 1) * s_ + sh, (p[2] + 1) * s_ + (sh if rng.random() < 0.5 else 0.0)] for p in n]
         # which vertex of a triangle comes first decides which branch of a tie is taken: every cyclic rotation
         f = [tuple(t[(k + r_) % 3] for k in range(3)) for t in f for r_ in [rng.randrange(3)]]
         cells.append((n, f))
-    cut = rng.choice([0.25, 0.5, 1.0])
+    cut = rng.choice([0.25, 0.5, 1.0]) if not tie_two else rng.choice([0.75, 1.0, 1.0625])      # tie_two: the two tied nodes inside the cut-off, the third beyond it
     return dict(kind="lattice", cells=cells, classes=[0] * nb, ids=list(range(nb)), lmin=0.5, cut_adh=cut, cut_rep=cut, place="origin", maxcurv=1e30)
 
 
@@ -95,6 +98,8 @@ def case_line(c):
     cts = types_for(c["classes"], maxcurv=c.get("maxcurv", 2.5e7))
     p = tissue.params(dt=1e-7, damping=5e-10, T=1.0, S=1.0, lmin=c["lmin"], cut_adh=c["cut_adh"], cut_rep=c["cut_rep"], swap=0)
     cells = [(i, n, f) for i, (n, f) in enumerate(c["cells"])]
+    if c.get("pre_merges"):
+        return tissue.fmt_tissue(p, cts, cells) + " CTM %d %d " % (c.get("threads", 1), c["pre_merges"]) + " ".join(str(i) for i in c["ids"])
     return tissue.fmt_tissue(p, cts, cells) + " CT %d " % c.get("threads", 1) + " ".join(str(i) for i in c["ids"])
 
 
